@@ -67,6 +67,13 @@ META = {
                         "regexp.FindAllIndex is modelled as leftmost non-overlapping scanning of a fixed-width sequence of one-byte classes ('.' excludes newline); index/suffixarray as the set of all occurrences: both tied by correspondence only",
                         "K3 (row k = [gtuy]) is pinned by TestMatch and listed as a known finding"],
     },
+    "C13": {
+        "sections": [],
+        "rule": "bodies: empty, small, repeated text (thorough: + 200 kB random multi-block) written through the real cache.Create/Write/Close; finished file compared structurally with root++data++sha1(body)++body (digests recomputed by the harness); then every byte offset x masks {0x01,0x80,0xFF}, every prefix length, appended tails of 1..3 bytes, wrong root / wrong data digest, crash states (placeholder + every body prefix; full body + every proper header prefix; a really abandoned writer) through the real cache.Open and through the model's open_entry (sha1/inflate supplied as tables). All cases non-trivial; distinct case lines.",
+        "assumptions": ["crypto/sha1 and compress/flate are Section variables: the theorems hold for every hash of fixed size and every compressor with inflate(deflate x) = Some x; collision resistance is not assumed (conclusions offer an explicit collision)",
+                        "PARTIAL: only program-order prefixes of the writer's write calls are modelled as crash states; the OS may reorder page writes after power loss",
+                        "os.File.Read is assumed to fill the 3*size header buffer when the file is long enough"],
+    },
 }
 
 
